@@ -12,7 +12,7 @@ EXTENDS Engine, Monitors
 
 CONSTANTS Family,          \* which event alphabet (one per property family)
           CfgRole, CfgBS, CfgChunk, CfgPersist, CfgResetOnLogon, CfgResetOnLogout,
-          CfgResetOnDisconnect, CfgCheckLatency, CfgHbOverride, CfgResetSeqTime,
+          CfgResetOnDisconnect, CfgCheckLatency, CfgHbOverride, CfgResetSeqTime, CfgSchedule,
           MaxIn, MaxOut,   \* counters explored up to these values
           MaxEp,           \* store resets explored
           MaxStash         \* early messages kept at a time
@@ -27,7 +27,7 @@ McCfg == [DefaultCfg EXCEPT !.role = CfgRole, !.bs = CfgBS, !.chunk = CfgChunk, 
                             !.resetOnLogon = CfgResetOnLogon, !.resetOnLogout = CfgResetOnLogout,
                             !.resetOnDisconnect = CfgResetOnDisconnect,
                             !.checkLatency = CfgCheckLatency, !.hbOverride = CfgHbOverride,
-                            !.resetSeqTime = CfgResetSeqTime]
+                            !.resetSeqTime = CfgResetSeqTime, !.schedule = CfgSchedule]
 
 \* ------------------------------------------------------------------ relative messages
 R(t, rs) == [t |-> t, rs |-> rs, seqc |-> "ok", pd |-> "none", ost |-> "none", bs |-> "ok", cid |-> "ok",
@@ -44,6 +44,7 @@ In(r) == [k |-> "Incoming", m |-> r]
 Pre(r) == [k |-> "Preload", m |-> r]
 T(e) == [k |-> "Timeout", e |-> e]
 K(k) == [k |-> k]
+Tick(w) == [k |-> "TimeTick", e |-> w]
 Snd(x, dns, ref) == [k |-> "Send", a |-> [x |-> x, dns |-> dns, ref |-> ref]]
 
 Lifecycle == {K("Connect"), K("Disconnected"), T("PeerTimeout"), T("NeedHeartbeat")}
@@ -96,11 +97,13 @@ LifeEvents ==
     \cup {In([R("4", rs) EXCEPT !.rn = rn]) : rs \in {-2, 0, 2}, rn \in {-1, 0, 1, 2}}      \* reset mode: MsgSeqNum not checked
     \cup {In([PossDup(R("4", rs)) EXCEPT !.gf = "Y", !.rn = rn]) : rs \in {-1, 0}, rn \in {-1, 0, 2}}
     \cup {Pre(R("D", 0)), Pre(R("5", 0)), Pre(R("0", 0)), Pre([R("1", 0) EXCEPT !.trid = "T1"])}
+    \cup (IF CfgSchedule THEN {Tick("same"), Tick("out"), Tick("next")} ELSE {})     \* the session schedule's ticker
 
 \* ---- family "reset": C07 (a slice of "life" without buffered frames and application sends)
 ResetEvents ==
     {K("Connect"), K("Disconnected"), K("Stop"), T("LogonTimeout"), T("LogoutTimeout")}
     \cup (IF CfgResetSeqTime THEN {K("ResetTick")} ELSE {})     \* the configured ResetSeqTime is crossed
+    \cup (IF CfgSchedule THEN {Tick("same"), Tick("out"), Tick("next")} ELSE {})
     \cup {In([R("A", rs) EXCEPT !.rsf = f]) : rs \in {-1, 0}, f \in {"none", "Y", "N"}} \cup {In(R("A", 1))}
     \cup {In([R("A", 0) EXCEPT !.cid = "wrong"])}
     \cup {In(R("5", rs)) : rs \in {-1, 0, 1}}
